@@ -170,6 +170,7 @@ const (
 	KNilStmt  = "nilstmt"  // (*jen.Statement)(nil)
 	KNilGroup = "nilgroup" // (*jen.Group)(nil)
 	KDict     = "dict"     // jen.Dict built from Pairs
+	KNest     = "nest"     // Depth groups of construct Calls[0].Fn nested around Id("leaf") (deep trees without deep recipes)
 )
 
 // Node is one Code value.
@@ -182,6 +183,8 @@ type Node struct {
 	Ref int `json:"ref,omitempty"`
 	// ViaFunc: for KDict, build with DictFunc instead of a map literal.
 	ViaFunc bool `json:"viafunc,omitempty"`
+	// Depth: for KNest.
+	Depth int `json:"depth,omitempty"`
 }
 
 // Pair is one Dict entry.
